@@ -25,6 +25,7 @@ var Func = bigslice.Func(func(p Program) bigslice.Slice { return p.Build() })
 var (
 	typInt   = reflect.TypeOf(0)
 	typStr   = reflect.TypeOf("")
+	typPt    = reflect.TypeOf(Pt{})
 	typBool  = reflect.TypeOf(false)
 	typErr   = reflect.TypeOf((*error)(nil)).Elem()
 	typState = reflect.TypeOf((*int)(nil))
@@ -38,6 +39,10 @@ func goType(c Col) reflect.Type {
 		return typStr
 	case Ints:
 		return reflect.SliceOf(typInt)
+	case PtCol:
+		return typPt
+	case PtsCol:
+		return reflect.SliceOf(typPt)
 	}
 	return reflect.SliceOf(typStr)
 }
@@ -130,6 +135,8 @@ func (p Program) Build() bigslice.Slice {
 		a, _ := op(base, bt, Op{Kind: OpReshard, N: p.N1})
 		b, _ := op(base, bt, Op{Kind: OpReshard, N: p.N2})
 		s = bigslice.Cogroup(a, b)
+	case ShapeResult:
+		panic("refeval.Build: a ShapeResult program is built with BuildOn(result of Prev)")
 	case ShapeFanout:
 		x, xt := op(src, SourceType(p.Src), Op{Kind: OpMap, Var: MapAdd1})
 		a, _ := op(x, xt, fanoutOp(p.N1))
@@ -453,7 +460,21 @@ func RunWith(ctx context.Context, sess *exec.Session, p Program, opts RunOpts) (
 	tag, rec := NewRecording()
 	defer DropRecording(tag)
 	p.Tag = tag
-	res, err := sess.Run(ctx, Func, p)
+	var res *exec.Result
+	var err error
+	if p.Shape == ShapeResult {
+		// Two invocations: Prev (its callbacks are not recorded), then p over its Result.
+		first := *p.Prev
+		first.Tag = 0
+		prev, err1 := sess.Run(ctx, Func, first)
+		if err1 != nil {
+			return Outcome{}, fmt.Errorf("run of the first invocation: %v", err1)
+		}
+		defer prev.Discard(ctx)
+		res, err = sess.Run(ctx, Func2, p, prev)
+	} else {
+		res, err = sess.Run(ctx, Func, p)
+	}
 	if err != nil {
 		return Outcome{Events: rec.Events()}, fmt.Errorf("run: %v", err)
 	}
